@@ -488,35 +488,36 @@ Qed.
 (* ------------------------------------------------------------------ *)
 (* Fait Accompli pre-allocation                                        *)
 (* ------------------------------------------------------------------ *)
-Definition seats_list (stakes : list N) (i0 total k : N) : list N :=
-  flat_map (fun '(i, s) => repeatN i (fa_seats s total k)) (indexed i0 stakes).
+Definition seats_list (cv : codever) (stakes : list N) (i0 total k : N) : list N :=
+  flat_map (fun '(i, s) => repeatN i (seats cv s total k)) (indexed i0 stakes).
 
-Lemma fa1_loop_spec total k stakes : forall id rq tr,
-  fa1_loop stakes id total k = Some (rq, tr) ->
-  rq = seats_list stakes id total k /\ length tr = length stakes /\
+Lemma fa1_loop_spec cv total k stakes : forall id rq tr,
+  fa1_loop cv stakes id total k = Some (rq, tr) ->
+  rq = seats_list cv stakes id total k /\ length tr = length stakes /\
   (forall j, nthN tr j 0 <= nthN stakes j 0).
 Proof.
   induction stakes as [|s r IH]; intros id rq tr H; cbn [fa1_loop] in H.
   - inversion H; subst. repeat split. intros j. unfold nthN. destruct (N.to_nat j); cbn [nth]; apply N.le_refl.
-  - destruct (W64 <=? fa_seats s total k * total); [discriminate|].
+  - destruct (seats_panic cv total); [discriminate|].
+    match type of H with (if ?c then _ else _) = _ => destruct c; [discriminate|] end.
     destruct (k =? 0); [discriminate|].
-    destruct (s <? fa_seats s total k * total / k) eqn:Es; [discriminate|].
-    destruct (fa1_loop r (id + 1) total k) as [[rq' tr']|] eqn:E; [|discriminate].
+    destruct (s <? seats cv s total k * total / k) eqn:Es; [discriminate|].
+    destruct (fa1_loop cv r (id + 1) total k) as [[rq' tr']|] eqn:E; [|discriminate].
     inversion H; subst; clear H. apply IH in E. destruct E as [E1 [E2 E3]]. subst rq'.
     split; [reflexivity|]. split; [cbn [length]; lia|].
     intros j. unfold nthN in *. destruct (N.to_nat j) as [|j'] eqn:Ej; cbn [nth]; [apply N.le_sub_l|].
     specialize (E3 (N.of_nat j')). rewrite Nat2N.id in E3. exact E3.
 Qed.
 
-Lemma fa1_prepare_spec stakes k p :
-  fa1_prepare stakes k = Some p ->
-  f1_required p = seats_list stakes 0 (sumN stakes) k /\
+Lemma fa1_prepare_spec cv stakes k p :
+  fa1_prepare cv stakes k = Some p ->
+  f1_required p = seats_list cv stakes 0 (sumN stakes) k /\
   lenN (f1_required p) + f1_kprime p = k /\
   length (f1_weights p) = length stakes /\
   (forall j, nthN (f1_weights p) j 0 <= nthN stakes j 0).
 Proof.
   unfold fa1_prepare. destruct (W64 <=? sumN stakes); [discriminate|].
-  destruct (fa1_loop stakes 0 (sumN stakes) k) as [[rq tr]|] eqn:E; [|discriminate].
+  destruct (fa1_loop cv stakes 0 (sumN stakes) k) as [[rq tr]|] eqn:E; [|discriminate].
   destruct (k <? lenN rq) eqn:Ek; [discriminate|]. apply N.ltb_ge in Ek.
   intros H. inversion H; subst; clear H. cbn [f1_required f1_kprime f1_weights].
   apply fa1_loop_spec in E. destruct E as [E1 [E2 E3]].
@@ -524,15 +525,15 @@ Proof.
   destruct (forallb (fun x => x =? 0) tr); split; auto. intros j. lia.
 Qed.
 
-Lemma seats_list_count stakes total k v :
-  count_occ_N (seats_list stakes 0 total k) v = if v <? lenN stakes then fa_seats (nthN stakes v 0) total k else 0.
+Lemma seats_list_count cv stakes total k v :
+  count_occ_N (seats_list cv stakes 0 total k) v = if v <? lenN stakes then seats cv (nthN stakes v 0) total k else 0.
 Proof.
-  unfold seats_list. rewrite (count_flat_repeat (fun s => fa_seats s total k)).
+  unfold seats_list. rewrite (count_flat_repeat (fun s => seats cv s total k)).
   replace (0 <=? v) with true by (symmetry; apply N.leb_le; lia). cbn [andb].
   replace (0 + lenN stakes) with (lenN stakes) by lia. replace (v - 0) with v by lia. reflexivity.
 Qed.
-Lemma seats_list_range stakes total k v : In v (seats_list stakes 0 total k) -> v < lenN stakes.
-Proof. intros H. apply (flat_repeat_range (fun s => fa_seats s total k)) in H. lia. Qed.
+Lemma seats_list_range cv stakes total k v : In v (seats_list cv stakes 0 total k) -> v < lenN stakes.
+Proof. intros H. apply (flat_repeat_range (fun s => seats cv s total k)) in H. lia. Qed.
 
 Lemma fa1_sample_spec required k fsize fallback s q r :
   lenN required <= k ->
@@ -550,30 +551,39 @@ Qed.
 (* ------------------------------------------------------------------ *)
 (* Fait Accompli 2                                                     *)
 (* ------------------------------------------------------------------ *)
-Lemma fa2_medium_spec medium : forall s q r,
-  fa2_medium medium s = Ok q r -> (length q <= length medium)%nat /\ incl q (map fst medium).
+Lemma fa2_medium_spec clamp medium : forall room s q r,
+  fa2_medium clamp room medium s = Ok q r ->
+  (length q <= length medium)%nat /\ incl q (map fst medium) /\ (clamp = true -> lenN q <= room).
 Proof.
-  induction medium as [|[v p] m IH]; intros s q r H; cbn [fa2_medium] in H.
-  - inversion H; subst. split; [cbn; lia | intros x []].
-  - destruct (random_bool p s) as [b s1| |]; try discriminate.
-    destruct (fa2_medium m s1) as [q' s2| |] eqn:E; try discriminate.
-    inversion H; subst; clear H. apply IH in E. destruct E as [E1 E2]. cbn [map fst length].
-    destruct b; cbn [length]; split; try lia.
-    + intros x [Hx|Hx]; [left; exact Hx | right; apply E2; exact Hx].
-    + intros x Hx. right. apply E2. exact Hx.
+  induction medium as [|[v p] m IH]; intros room s q r H; cbn [fa2_medium] in H.
+  - inversion H; subst. split; [cbn; lia|]. split; [intros x []|]. intros _. apply N.le_0_l.
+  - destruct (clamp && (room =? 0)) eqn:Ec.
+    + inversion H; subst. split; [cbn; lia|]. split; [intros x []|]. intros _. apply N.le_0_l.
+    + destruct (random_bool p s) as [b s1| |]; try discriminate.
+      destruct (fa2_medium clamp (if b then room - 1 else room) m s1) as [q' s2| |] eqn:E; try discriminate.
+      inversion H; subst; clear H. apply IH in E. destruct E as [E1 [E2 E3]]. cbn [map fst length].
+      destruct b; cbn [length]; (split; [lia|]); split.
+      * intros x [Hx|Hx]; [left; exact Hx | right; apply E2; exact Hx].
+      * intros Hc. specialize (E3 Hc). subst clamp. cbn [andb] in Ec. apply N.eqb_neq in Ec.
+        rewrite lenN_cons. lia.
+      * intros x Hx. right. apply E2. exact Hx.
+      * exact E3.
 Qed.
 
-Lemma fa2_new_spec stakes k st :
-  fa2_new stakes k = Some st ->
-  f2_required st = seats_list stakes 0 (sumN stakes) k /\ f2_k st = k /\
+Lemma fa2_new_spec cv stakes k st :
+  fa2_new cv stakes k = Some st ->
+  f2_required st = seats_list cv stakes 0 (sumN stakes) k /\ f2_k st = k /\
   0 < sumN (f2_weights st) /\ length (f2_weights st) = length stakes /\
-  (forall v, In v (map fst (f2_medium st)) -> v < lenN stakes).
+  (forall v, In v (map fst (f2_medium st)) -> v < lenN stakes) /\
+  f2_clamp st = (match cv with Current => true | Pinned => false end) /\
+  (cv = Current -> sumN stakes <> 0).
 Proof.
   unfold fa2_new. destruct (W64 <=? sumN stakes); [discriminate|].
+  destruct (seats_panic cv (sumN stakes)) eqn:Esp; [discriminate|].
   destruct (negb (PrimFloat.leb (fsum (map (fun s => fa2_f s (sumN stakes) k) stakes)) 1)); [discriminate|].
   match goal with |- context [if windex_ok ?w then _ else _] => destruct (windex_ok w) eqn:Eok; [|discriminate]; set (ws := w) in * end.
-  intros H. inversion H; subst; clear H. cbn [f2_required f2_k f2_weights f2_medium].
-  split; [reflexivity|]. split; [reflexivity|]. split; [apply windex_ok_total in Eok; apply Eok|]. split.
+  intros H. inversion H; subst; clear H. cbn [f2_required f2_k f2_weights f2_medium f2_clamp].
+  split; [reflexivity|]. split; [reflexivity|]. split; [apply windex_ok_total in Eok; apply Eok|]. split; [|split; [|split]].
   - unfold ws. destruct (PrimFloat.eqb _ 0); [reflexivity|].
     rewrite map_length, indexed_length, combine_length, map_length. lia.
   - intros v Hv. apply in_map_iff in Hv. destruct Hv as [[v' p] [E Hin]]. cbn [fst] in E. subst v'.
@@ -581,6 +591,8 @@ Proof.
     destruct (PrimFloat.ltb (rel_stake s (sumN stakes)) fi); [|contradiction].
     destruct Hp as [Hp|[]]. inversion Hp; subst.
     apply indexed_In in Hi. unfold lenN in Hi. rewrite combine_length, map_length in Hi. unfold lenN. lia.
+  - reflexivity.
+  - intros Ecv. subst cv. cbn [seats_panic] in Esp. apply N.eqb_neq in Esp. exact Esp.
 Qed.
 
 (* ------------------------------------------------------------------ *)
@@ -598,15 +610,24 @@ Proof.
   intros e [leader sl] He. unfold tw_leader. apply fold_left_length_inv; [|exact He].
   intros e' [root sr] He'. destruct (root =? leader); [exact He'|]. apply tw_pair_length. exact He'.
 Qed.
-Lemma turbine_weights_spec stakes fanout ws :
-  turbine_weights stakes fanout = Some ws -> length ws = length stakes /\ 0 < sumN ws.
+Lemma turbine_weights_general_spec stakes fanout ws :
+  turbine_weights_general stakes fanout = Some ws -> length ws = length stakes /\ 0 < sumN ws.
 Proof.
-  unfold turbine_weights. destruct (W64 <=? sumN stakes); [discriminate|].
+  unfold turbine_weights_general. destruct (W64 <=? sumN stakes); [discriminate|].
   destruct (lenN stakes <? 2); [discriminate|].
   destruct ((3 <=? lenN stakes) && (fanout =? 0)); [discriminate|].
   match goal with |- context [windex_ok ?w] => destruct (windex_ok w) eqn:Eok; [|discriminate] end.
   intros H. inversion H; subst. split; [rewrite map_length; apply turbine_expected_work_length|].
   apply windex_ok_total in Eok. apply Eok.
+Qed.
+
+Lemma turbine_weights_spec cv stakes fanout ws :
+  turbine_weights cv stakes fanout = Some ws -> length ws = length stakes /\ 0 < sumN ws.
+Proof.
+  destruct cv; cbn [turbine_weights]; [apply turbine_weights_general_spec|].
+  destruct (lenN stakes <=? 2); [|apply turbine_weights_general_spec].
+  destruct (windex_ok stakes) eqn:E; [|discriminate]. intros H. inversion H; subst.
+  split; [reflexivity|]. apply windex_ok_total in E. apply E.
 Qed.
 
 Lemma reject_same_spec (P : N -> Prop) sample tries : 
@@ -633,11 +654,14 @@ Qed.
 (* the strategies behind `construct` / `sample_quorum`                  *)
 (* ------------------------------------------------------------------ *)
 Definition valid_order (stakes order : list N) : Prop := Forall (fun id => id < lenN stakes) order.
-(* FA2 fills up to k seats; that the pre-allocated and the "medium" seats alone do not exceed k is what
-   its constructor's floating-point assertion (sum f <= 1.0) is meant to ensure *)
+(* FA2 fills up to k seats.  It returns exactly k if the pre-allocated and the "medium" seats alone do not
+   exceed k (what the constructor's floating-point assertion sum f <= 1.0 was meant to ensure - pinned tree),
+   or if the medium-node loop is clamped and the pre-allocated seats do not exceed k (current code, where
+   the latter is a theorem: fa2_counts_ok_current) *)
 Definition fa2_counts_ok (sm : sampler) : Prop :=
   match sm with
   | SmFA2 st => lenN (f2_required st) + lenN (f2_medium st) <= f2_k st
+                \/ (f2_clamp st = true /\ lenN (f2_required st) <= f2_k st)
   | _ => True
   end.
 
@@ -650,49 +674,50 @@ Proof.
 Qed.
 
 (* 1. exactly the configured number of validators *)
-Theorem quorum_len : forall st stakes order sm s q r,
-  construct st stakes order = COk sm -> fa2_counts_ok sm ->
+Theorem quorum_len : forall cv st stakes order sm s q r,
+  construct cv st stakes order = COk sm -> fa2_counts_ok sm ->
   sample_quorum sm s = Ok q r -> lenN q = quorum_size st.
 Proof.
-  intros st stakes order sm s q r Hc Hfa Hs. destruct st; cbn [construct quorum_size] in *.
+  intros cv st stakes order sm s q r Hc Hfa Hs. destruct st; cbn [construct quorum_size] in *.
   - destruct (v <? lenN stakes); inversion Hc; subst. cbn [sample_quorum] in Hs.
     apply iid_length in Hs. apply lenN_of_length. exact Hs.
   - inversion Hc; subst. cbn [sample_quorum] in Hs. apply iid_length in Hs. apply lenN_of_length. exact Hs.
   - destruct (windex_ok stakes); inversion Hc; subst. cbn [sample_quorum] in Hs.
     apply iid_length in Hs. apply lenN_of_length. exact Hs.
-  - destruct (turbine_weights stakes fanout); inversion Hc; subst. cbn [sample_quorum] in Hs.
+  - destruct (turbine_weights cv stakes fanout); inversion Hc; subst. cbn [sample_quorum] in Hs.
     apply iid_length in Hs. apply lenN_of_length. exact Hs.
   - destruct (windex_ok stakes); inversion Hc; subst. cbn [sample_quorum] in Hs.
     apply decay_quorum_length in Hs. apply lenN_of_length. exact Hs.
   - destruct (partition_new (shuffled stakes order) bins) as [bs| |] eqn:Ep; inversion Hc; subst.
     cbn [sample_quorum] in Hs. apply partition_sample_length in Hs. apply partition_new_spec in Ep.
     destruct Ep as [Ep _]. unfold lenN in *. rewrite Hs. exact Ep.
-  - destruct (fa1_prepare stakes k) as [p|] eqn:Ef; [|discriminate].
+  - destruct (fa1_prepare cv stakes k) as [p|] eqn:Ef; [|discriminate].
     destruct (partition_new (shuffled (f1_weights p) order) (f1_kprime p)) as [bs| |] eqn:Ep; inversion Hc; subst.
     cbn [sample_quorum] in Hs. apply fa1_prepare_spec in Ef. destruct Ef as [_ [Ek _]].
     apply fa1_sample_spec in Hs; [|lia]. destruct Hs as [[E1 E2]|[q' [Hq [E1 [E2 E3]]]]].
     + subst q. exact E2.
     + subst q. rewrite lenN_app. apply partition_sample_length in Hq. unfold lenN in *. lia.
-  - destruct (fa1_prepare stakes k) as [p|] eqn:Ef; [|discriminate].
+  - destruct (fa1_prepare cv stakes k) as [p|] eqn:Ef; [|discriminate].
     destruct (windex_ok (f1_weights p)); inversion Hc; subst.
     cbn [sample_quorum] in Hs. apply fa1_prepare_spec in Ef. destruct Ef as [_ [Ek _]].
     apply fa1_sample_spec in Hs; [|lia]. destruct Hs as [[E1 E2]|[q' [Hq [E1 [E2 E3]]]]].
     + subst q. exact E2.
     + subst q. rewrite lenN_app. apply iid_length in Hq. unfold lenN in *. lia.
-  - destruct (fa2_new stakes k) as [f|] eqn:Ef; inversion Hc; subst. cbn [sample_quorum fa2_counts_ok] in *.
+  - destruct (fa2_new cv stakes k) as [f|] eqn:Ef; inversion Hc; subst. cbn [sample_quorum fa2_counts_ok] in *.
     apply fa2_new_spec in Ef. destruct Ef as [_ [Ek _]]. unfold fa2_sample in Hs.
-    destruct (fa2_medium (f2_medium f) s) as [med s1| |] eqn:Em; try discriminate.
+    destruct (fa2_medium (f2_clamp f) (f2_k f - lenN (f2_required f)) (f2_medium f) s) as [med s1| |] eqn:Em; try discriminate.
     match type of Hs with context [iid ?n ?f ?x] => destruct (iid n f x) as [q' s2| |] eqn:Ei; try discriminate end.
-    inversion Hs; subst; clear Hs. apply fa2_medium_spec in Em. destruct Em as [Em _].
-    apply iid_length in Ei. rewrite !lenN_app in *. unfold lenN in *. lia.
+    inversion Hs; subst; clear Hs. apply fa2_medium_spec in Em. destruct Em as [Em [_ Emc]].
+    apply iid_length in Ei. rewrite !lenN_app in *.
+    destruct Hfa as [Hfa|[Hcl Hfa]]; [|specialize (Emc Hcl)]; unfold lenN in *; lia.
 Qed.
 
 (* 2. every member is a validator of the set *)
-Theorem members_in_range : forall st stakes order sm s q r,
-  construct st stakes order = COk sm -> valid_order stakes order -> lenN stakes < W64 ->
+Theorem members_in_range : forall cv st stakes order sm s q r,
+  construct cv st stakes order = COk sm -> valid_order stakes order -> lenN stakes < W64 ->
   sample_quorum sm s = Ok q r -> Forall (fun v => v < lenN stakes) q.
 Proof.
-  intros st stakes order sm s q r Hc Hord Hn Hs. destruct st; cbn [construct] in *.
+  intros cv st stakes order sm s q r Hc Hord Hn Hs. destruct st; cbn [construct] in *.
   - destruct (v <? lenN stakes) eqn:Ev; inversion Hc; subst. apply N.ltb_lt in Ev. cbn [sample_quorum] in Hs.
     eapply iid_Forall; [|exact Hs]. intros s0 v0 r0 H0. inversion H0; subst. exact Ev.
   - inversion Hc; subst. cbn [sample_quorum] in Hs. eapply iid_Forall; [|exact Hs].
@@ -700,7 +725,7 @@ Proof.
   - destruct (windex_ok stakes) eqn:Eok; inversion Hc; subst. cbn [sample_quorum] in Hs.
     apply windex_ok_total in Eok. eapply iid_Forall; [|exact Hs].
     intros s0 v0 r0 H0. eapply windex_sample_spec; eauto. apply Eok.
-  - destruct (turbine_weights stakes fanout) as [ws|] eqn:Et; inversion Hc; subst. cbn [sample_quorum] in Hs.
+  - destruct (turbine_weights cv stakes fanout) as [ws|] eqn:Et; inversion Hc; subst. cbn [sample_quorum] in Hs.
     apply turbine_weights_spec in Et. destruct Et as [El Ep]. eapply iid_Forall; [|exact Hs].
     intros s0 v0 r0 H0. apply turbine_sample_spec in H0; [|exact Ep]. unfold lenN in *. rewrite <- El. apply H0.
   - destruct (windex_ok stakes) eqn:Eok; inversion Hc; subst. cbn [sample_quorum] in Hs.
@@ -711,7 +736,7 @@ Proof.
     apply partition_sample_members in Hs; [|exact Ep1]. eapply Forall_impl; [|exact Hs].
     intros v [b [t [Hb [Hin _]]]]. destruct (Ep2 b (v, t) Hb Hin) as [st [Hst _]]. cbn [fst] in Hst.
     apply shuffled_In in Hst. destruct Hst as [Hst _]. unfold valid_order in Hord. rewrite Forall_forall in Hord. auto.
-  - destruct (fa1_prepare stakes k) as [p|] eqn:Ef; [|discriminate].
+  - destruct (fa1_prepare cv stakes k) as [p|] eqn:Ef; [|discriminate].
     destruct (partition_new (shuffled (f1_weights p) order) (f1_kprime p)) as [bs| |] eqn:Ep; inversion Hc; subst.
     cbn [sample_quorum] in Hs. apply fa1_prepare_spec in Ef. destruct Ef as [Er [Ek [El _]]].
     assert (Hreq : Forall (fun v => v < lenN stakes) (f1_required p)).
@@ -722,7 +747,7 @@ Proof.
     apply partition_sample_members in Hq; [|exact Ep1]. eapply Forall_impl; [|exact Hq].
     intros v [b [t [Hb [Hin _]]]]. destruct (Ep2 b (v, t) Hb Hin) as [st [Hst _]]. cbn [fst] in Hst.
     apply shuffled_In in Hst. destruct Hst as [Hst _]. unfold valid_order in Hord. rewrite Forall_forall in Hord. auto.
-  - destruct (fa1_prepare stakes k) as [p|] eqn:Ef; [|discriminate].
+  - destruct (fa1_prepare cv stakes k) as [p|] eqn:Ef; [|discriminate].
     destruct (windex_ok (f1_weights p)) eqn:Eok; inversion Hc; subst.
     cbn [sample_quorum] in Hs. apply fa1_prepare_spec in Ef. destruct Ef as [Er [Ek [El _]]].
     assert (Hreq : Forall (fun v => v < lenN stakes) (f1_required p)).
@@ -731,11 +756,11 @@ Proof.
     apply Forall_app. split; [exact Hreq|]. apply windex_ok_total in Eok.
     eapply iid_Forall; [|exact Hq]. intros s0 v0 r0 H0. apply windex_sample_spec in H0; [|apply Eok].
     unfold lenN in *. rewrite <- El. apply H0.
-  - destruct (fa2_new stakes k) as [f|] eqn:Ef; inversion Hc; subst. cbn [sample_quorum] in Hs.
-    apply fa2_new_spec in Ef. destruct Ef as [Er [Ek [Ep [El Em]]]]. unfold fa2_sample in Hs.
-    destruct (fa2_medium (f2_medium f) s) as [med s1| |] eqn:Emed; try discriminate.
+  - destruct (fa2_new cv stakes k) as [f|] eqn:Ef; inversion Hc; subst. cbn [sample_quorum] in Hs.
+    apply fa2_new_spec in Ef. destruct Ef as [Er [Ek [Ep [El [Em _]]]]]. unfold fa2_sample in Hs.
+    destruct (fa2_medium (f2_clamp f) (f2_k f - lenN (f2_required f)) (f2_medium f) s) as [med s1| |] eqn:Emed; try discriminate.
     match type of Hs with context [iid ?n ?f ?x] => destruct (iid n f x) as [q' s2| |] eqn:Ei; try discriminate end.
-    inversion Hs; subst; clear Hs. apply fa2_medium_spec in Emed. destruct Emed as [_ Einc].
+    inversion Hs; subst; clear Hs. apply fa2_medium_spec in Emed. destruct Emed as [_ [Einc _]].
     apply Forall_app. split; [apply Forall_app; split|].
     + rewrite Er. apply Forall_forall. intros v Hv. eapply seats_list_range; eauto.
     + apply Forall_forall. intros v Hv. apply Em. apply Einc. exact Hv.
@@ -745,9 +770,9 @@ Qed.
 
 (* 3. a zero-weight validator is never drawn.  `drawn` is the randomly drawn part of the committee (all of
    it except Fait Accompli's pre-allocated seats); every drawn validator has positive stake. *)
-Definition prealloc (st : strategy) (stakes : list N) : list N :=
+Definition prealloc (cv : codever) (st : strategy) (stakes : list N) : list N :=
   match st with
-  | StFA1Part k | StFA1Stake k => seats_list stakes 0 (sumN stakes) k
+  | StFA1Part k | StFA1Stake k => seats_list cv stakes 0 (sumN stakes) k
   | _ => []
   end.
 Definition stake_drawn (st : strategy) : bool :=
@@ -763,12 +788,12 @@ Proof.
   apply shuffled_In in Hst. destruct Hst as [_ Hst]. subst st. lia.
 Qed.
 
-Theorem zero_weight_never_drawn : forall st stakes order sm s q r,
+Theorem zero_weight_never_drawn : forall cv st stakes order sm s q r,
   stake_drawn st = true ->
-  construct st stakes order = COk sm -> sample_quorum sm s = Ok q r ->
-  exists drawn, q = prealloc st stakes ++ drawn /\ Forall (fun v => 0 < nthN stakes v 0) drawn.
+  construct cv st stakes order = COk sm -> sample_quorum sm s = Ok q r ->
+  exists drawn, q = prealloc cv st stakes ++ drawn /\ Forall (fun v => 0 < nthN stakes v 0) drawn.
 Proof.
-  intros st stakes order sm s q r Hd Hc Hs. destruct st; cbn [stake_drawn] in Hd; try discriminate; cbn [construct prealloc] in *.
+  intros cv st stakes order sm s q r Hd Hc Hs. destruct st; cbn [stake_drawn] in Hd; try discriminate; cbn [construct prealloc] in *.
   - destruct (windex_ok stakes) eqn:Eok; inversion Hc; subst. cbn [sample_quorum] in Hs.
     apply windex_ok_total in Eok. exists q. split; [reflexivity|]. eapply iid_Forall; [|exact Hs].
     intros s0 v0 r0 H0. eapply windex_sample_spec; eauto. apply Eok.
@@ -777,7 +802,7 @@ Proof.
     exists q. split; [reflexivity|]. eapply Forall_impl; [|exact Hs]. intros a [_ B]. exact B.
   - destruct (partition_new (shuffled stakes order) bins) as [bs| |] eqn:Ep; inversion Hc; subst.
     cbn [sample_quorum] in Hs. exists q. split; [reflexivity|]. eapply bins_members_positive; eauto.
-  - destruct (fa1_prepare stakes k) as [p|] eqn:Ef; [|discriminate].
+  - destruct (fa1_prepare cv stakes k) as [p|] eqn:Ef; [|discriminate].
     destruct (partition_new (shuffled (f1_weights p) order) (f1_kprime p)) as [bs| |] eqn:Ep; inversion Hc; subst.
     cbn [sample_quorum] in Hs. apply fa1_prepare_spec in Ef. destruct Ef as [Er [Ek [El Ew]]].
     apply fa1_sample_spec in Hs; [|lia]. destruct Hs as [[E1 E2]|[q' [Hq [E1 _]]]]; subst q.
@@ -785,7 +810,7 @@ Proof.
     + exists q'. split; [rewrite Er; reflexivity|].
       pose proof (bins_members_positive _ _ _ _ _ _ _ Ep Hq) as Hpos.
       eapply Forall_impl; [|exact Hpos]. intros v Hv. cbn beta in *. specialize (Ew v). lia.
-  - destruct (fa1_prepare stakes k) as [p|] eqn:Ef; [|discriminate].
+  - destruct (fa1_prepare cv stakes k) as [p|] eqn:Ef; [|discriminate].
     destruct (windex_ok (f1_weights p)) eqn:Eok; inversion Hc; subst.
     cbn [sample_quorum] in Hs. apply fa1_prepare_spec in Ef. destruct Ef as [Er [Ek [El Ew]]].
     apply fa1_sample_spec in Hs; [|lia]. destruct Hs as [[E1 E2]|[q' [Hq [E1 _]]]]; subst q.
@@ -796,12 +821,12 @@ Proof.
 Qed.
 
 (* TurbineSampler draws by its own work-derived weights: never a validator whose weight is zero *)
-Theorem turbine_zero_weight_never_drawn : forall fanout k stakes order sm s q r,
-  construct (StTurbine fanout k) stakes order = COk sm -> sample_quorum sm s = Ok q r ->
-  exists ws, turbine_weights stakes fanout = Some ws /\ Forall (fun v => 0 < nthN ws v 0) q.
+Theorem turbine_zero_weight_never_drawn : forall cv fanout k stakes order sm s q r,
+  construct cv (StTurbine fanout k) stakes order = COk sm -> sample_quorum sm s = Ok q r ->
+  exists ws, turbine_weights cv stakes fanout = Some ws /\ Forall (fun v => 0 < nthN ws v 0) q.
 Proof.
-  intros fanout k stakes order sm s q r Hc Hs. cbn [construct] in Hc.
-  destruct (turbine_weights stakes fanout) as [ws|] eqn:Et; inversion Hc; subst. cbn [sample_quorum] in Hs.
+  intros cv fanout k stakes order sm s q r Hc Hs. cbn [construct] in Hc.
+  destruct (turbine_weights cv stakes fanout) as [ws|] eqn:Et; inversion Hc; subst. cbn [sample_quorum] in Hs.
   exists ws. split; [reflexivity|]. apply turbine_weights_spec in Et. destruct Et as [_ Ep].
   eapply iid_Forall; [|exact Hs]. intros s0 v0 r0 H0. apply turbine_sample_spec in H0; [|exact Ep]. apply H0.
 Qed.
@@ -810,29 +835,29 @@ Qed.
    floor in binary64 of (stake as f64 / total as f64 * k as f64) *)
 Definition is_fa (st : strategy) : bool := match st with StFA1Part _ | StFA1Stake _ | StFA2 _ => true | _ => false end.
 
-Theorem fa_preallocated_seats : forall st stakes order sm s q r v,
+Theorem fa_preallocated_seats : forall cv st stakes order sm s q r v,
   is_fa st = true ->
-  construct st stakes order = COk sm -> sample_quorum sm s = Ok q r -> v < lenN stakes ->
-  fa_seats (nthN stakes v 0) (sumN stakes) (quorum_size st) <= count_occ_N q v.
+  construct cv st stakes order = COk sm -> sample_quorum sm s = Ok q r -> v < lenN stakes ->
+  seats cv (nthN stakes v 0) (sumN stakes) (quorum_size st) <= count_occ_N q v.
 Proof.
-  intros st stakes order sm s q r v Hfa Hc Hs Hv. destruct st; cbn [is_fa] in Hfa; try discriminate; cbn [construct quorum_size] in *.
-  - destruct (fa1_prepare stakes k) as [p|] eqn:Ef; [|discriminate].
+  intros cv st stakes order sm s q r v Hfa Hc Hs Hv. destruct st; cbn [is_fa] in Hfa; try discriminate; cbn [construct quorum_size] in *.
+  - destruct (fa1_prepare cv stakes k) as [p|] eqn:Ef; [|discriminate].
     destruct (partition_new (shuffled (f1_weights p) order) (f1_kprime p)) as [bs| |] eqn:Ep; inversion Hc; subst.
     cbn [sample_quorum] in Hs. apply fa1_prepare_spec in Ef. destruct Ef as [Er [Ek _]].
     apply fa1_sample_spec in Hs; [|lia].
-    assert (Hcnt : count_occ_N (f1_required p) v = fa_seats (nthN stakes v 0) (sumN stakes) k).
+    assert (Hcnt : count_occ_N (f1_required p) v = seats cv (nthN stakes v 0) (sumN stakes) k).
     { rewrite Er, seats_list_count. apply N.ltb_lt in Hv. rewrite Hv. reflexivity. }
     destruct Hs as [[E1 _]|[q' [_ [E1 _]]]]; subst q; [lia|]. rewrite count_occ_N_app. lia.
-  - destruct (fa1_prepare stakes k) as [p|] eqn:Ef; [|discriminate].
+  - destruct (fa1_prepare cv stakes k) as [p|] eqn:Ef; [|discriminate].
     destruct (windex_ok (f1_weights p)); inversion Hc; subst.
     cbn [sample_quorum] in Hs. apply fa1_prepare_spec in Ef. destruct Ef as [Er [Ek _]].
     apply fa1_sample_spec in Hs; [|lia].
-    assert (Hcnt : count_occ_N (f1_required p) v = fa_seats (nthN stakes v 0) (sumN stakes) k).
+    assert (Hcnt : count_occ_N (f1_required p) v = seats cv (nthN stakes v 0) (sumN stakes) k).
     { rewrite Er, seats_list_count. apply N.ltb_lt in Hv. rewrite Hv. reflexivity. }
     destruct Hs as [[E1 _]|[q' [_ [E1 _]]]]; subst q; [lia|]. rewrite count_occ_N_app. lia.
-  - destruct (fa2_new stakes k) as [f|] eqn:Ef; inversion Hc; subst. cbn [sample_quorum] in Hs.
+  - destruct (fa2_new cv stakes k) as [f|] eqn:Ef; inversion Hc; subst. cbn [sample_quorum] in Hs.
     apply fa2_new_spec in Ef. destruct Ef as [Er _]. unfold fa2_sample in Hs.
-    destruct (fa2_medium (f2_medium f) s) as [med s1| |]; try discriminate.
+    destruct (fa2_medium (f2_clamp f) (f2_k f - lenN (f2_required f)) (f2_medium f) s) as [med s1| |]; try discriminate.
     match type of Hs with context [iid ?n ?f ?x] => destruct (iid n f x) as [q' s2| |]; try discriminate end.
     inversion Hs; subst; clear Hs. rewrite !count_occ_N_app, Er, seats_list_count.
     apply N.ltb_lt in Hv. rewrite Hv. lia.
@@ -841,12 +866,21 @@ Qed.
 (* the guarantee of the property, floor(f * k) with f the exact stake fraction, follows wherever the
    binary64 computation agrees with the exact floor *)
 Definition exact_floor (s total k : N) : N := s * k / total.
-Corollary fa_floor_guarantee_where_float_exact : forall st stakes order sm s q r v,
+(* the code as it is now computes exactly that floor: the guarantee of the property, for every stake
+   distribution, committee size, order and random stream, for both FA1 samplers and FA2 *)
+Theorem fa_floor_guarantee : forall st stakes order sm s q r v,
   is_fa st = true ->
-  construct st stakes order = COk sm -> sample_quorum sm s = Ok q r -> v < lenN stakes ->
+  construct Current st stakes order = COk sm -> sample_quorum sm s = Ok q r -> v < lenN stakes ->
+  exact_floor (nthN stakes v 0) (sumN stakes) (quorum_size st) <= count_occ_N q v.
+Proof. intros. exact (fa_preallocated_seats Current _ _ _ _ _ _ _ _ H H0 H1 H2). Qed.
+
+(* pinned tree: the same only where the binary64 computation happened to be exact *)
+Corollary fa_floor_guarantee_pinned_where_float_exact : forall st stakes order sm s q r v,
+  is_fa st = true ->
+  construct Pinned st stakes order = COk sm -> sample_quorum sm s = Ok q r -> v < lenN stakes ->
   fa_seats (nthN stakes v 0) (sumN stakes) (quorum_size st) = exact_floor (nthN stakes v 0) (sumN stakes) (quorum_size st) ->
   exact_floor (nthN stakes v 0) (sumN stakes) (quorum_size st) <= count_occ_N q v.
-Proof. intros. rewrite <- H3. eapply fa_preallocated_seats; eauto. Qed.
+Proof. intros. rewrite <- H3. exact (fa_preallocated_seats Pinned _ _ _ _ _ _ _ _ H H0 H1 H2). Qed.
 
 (* 5. decaying acceptance: no validator exceeds the cap, for every acceptance test that rejects at the cap *)
 Theorem decay_cap : forall (accept : N -> float -> bool) (cap : N) ws k s q r v,
@@ -867,12 +901,12 @@ Qed.
    binary64 fact that count / max_samples >= 1 > random::<f64>() once count >= cap = ceil(max_samples) *)
 Definition rejects_at (max_samples : float) (cap : N) : Prop :=
   forall c w, cap <= c -> w < W64 -> decay_accept max_samples c (u01_of_word w) = false.
-Theorem decay_sampler_cap : forall mnum mden k stakes order sm cap s q r v,
-  construct (StDecay mnum mden k) stakes order = COk sm ->
+Theorem decay_sampler_cap : forall cv mnum mden k stakes order sm cap s q r v,
+  construct cv (StDecay mnum mden k) stakes order = COk sm ->
   rejects_at (decay_max mnum mden) cap ->
   sample_quorum sm s = Ok q r -> count_occ_N q v <= cap.
 Proof.
-  intros mnum mden k stakes order sm cap s q r v Hc Hrej Hs. cbn [construct] in Hc.
+  intros cv mnum mden k stakes order sm cap s q r v Hc Hrej Hs. cbn [construct] in Hc.
   destruct (windex_ok stakes) eqn:Eok; inversion Hc; subst. cbn [sample_quorum] in Hs.
   apply windex_ok_total in Eok. eapply decay_cap; eauto. apply Eok.
 Qed.
@@ -884,26 +918,185 @@ Proof.
   intros [Hne [Hpos Hsum]]. apply windex_ok_spec. split; [exact Hne|]. split; [|exact Hsum].
   destruct stakes as [|x l]; [congruence|]. inversion Hpos; subst. rewrite sumN_cons. lia.
 Qed.
-Theorem constructible : forall st stakes order,
+Theorem constructible : forall cv st stakes order,
   positive_set stakes ->
   match st with
   | StUniform _ | StStake _ | StDecay _ _ _ => True
   | StAllSame v _ => v < lenN stakes
   | _ => False
   end ->
-  exists sm, construct st stakes order = COk sm.
+  exists sm, construct cv st stakes order = COk sm.
 Proof.
-  intros st stakes order Hp Hst. pose proof (positive_set_windex _ Hp) as Hw.
+  intros cv st stakes order Hp Hst. pose proof (positive_set_windex _ Hp) as Hw.
   destruct st; try contradiction; cbn [construct]; rewrite ?Hw; eauto.
   apply N.ltb_lt in Hst. rewrite Hst. eauto.
 Qed.
 
-(* 7. a committee is a function of the validator set and the random source: by construction of the model,
-   except for the thread-RNG shuffle inside PartitionSampler::new (argument `order`) *)
+(* --- the repaired code: FA1 with the stake-weighted fallback is constructible for every positive set --- *)
+Lemma div_add_le a b T : 0 < T -> a / T + b / T <= (a + b) / T.
+Proof.
+  intros HT. apply N.div_le_lower_bound; [lia|].
+  pose proof (N.mul_div_le a T ltac:(lia)). pose proof (N.mul_div_le b T ltac:(lia)). lia.
+Qed.
+Lemma floor_sum_le (l : list N) k T : 0 < T -> sumN (map (fun s => s * k / T) l) <= sumN l * k / T.
+Proof.
+  intros HT. induction l as [|x l IH]; [cbn; apply N.le_0_l|].
+  cbn [map]. rewrite !sumN_cons. rewrite N.mul_add_distr_r.
+  eapply N.le_trans; [|apply div_add_le; exact HT]. lia.
+Qed.
+Lemma seats_list_length cv stakes : forall i0 total k,
+  lenN (seats_list cv stakes i0 total k) = sumN (map (fun s => seats cv s total k) stakes).
+Proof.
+  unfold seats_list. induction stakes as [|x l IH]; intros i0 total k; [reflexivity|].
+  cbn [indexed flat_map map]. rewrite lenN_app, sumN_cons, IH. unfold repeatN. rewrite lenN_repeat. reflexivity.
+Qed.
+Lemma seats_back_le s k T : 0 < k -> s * k / T * T / k <= s.
+Proof.
+  intros Hk. destruct (N.eq_dec T 0) as [E|D]; [subst; rewrite N.mul_0_r; cbn; apply N.le_0_l|].
+  apply N.div_le_upper_bound; [lia|]. pose proof (N.mul_div_le (s * k) T D). lia.
+Qed.
+
+Lemma fa1_loop_current_total stakes : forall id total k,
+  0 < total -> 0 < k ->
+  exists rq tr, fa1_loop Current stakes id total k = Some (rq, tr) /\ sumN tr <= sumN stakes.
+Proof.
+  induction stakes as [|s r IH]; intros id total k HT Hk; cbn [fa1_loop].
+  - exists [], []. split; [reflexivity | apply N.le_refl].
+  - cbn [seats_panic seats]. replace (total =? 0) with false by (symmetry; apply N.eqb_neq; lia).
+    replace (k =? 0) with false by (symmetry; apply N.eqb_neq; lia).
+    pose proof (seats_back_le s k total Hk) as Hb.
+    replace (s <? s * k / total * total / k) with false by (symmetry; apply N.ltb_ge; exact Hb).
+    destruct (IH (id + 1) total k HT Hk) as [rq [tr [E L]]]. rewrite E.
+    eexists; eexists. split; [reflexivity|]. rewrite !sumN_cons. apply N.add_le_mono; [apply N.le_sub_l | exact L].
+Qed.
+
+Lemma forallb_zero_sum l : forallb (fun x => x =? 0) l = false -> 0 < sumN l.
+Proof.
+  induction l as [|x l IH]; [discriminate|]. cbn [forallb]. rewrite sumN_cons.
+  destruct (x =? 0) eqn:E; cbn [andb]; [intros H; specialize (IH H); lia|]. apply N.eqb_neq in E. lia.
+Qed.
+
+Theorem fa1_stake_constructible : forall stakes k order,
+  positive_set stakes -> 1 <= k ->
+  exists sm, construct Current (StFA1Stake k) stakes order = COk sm.
+Proof.
+  intros stakes k order Hp Hk. pose proof (positive_set_windex _ Hp) as Hw.
+  destruct Hp as [Hne [Hpos Hsum]]. pose proof (windex_ok_total _ Hw) as [HT _].
+  cbn [construct]. unfold fa1_prepare.
+  replace (W64 <=? sumN stakes) with false by (symmetry; apply N.leb_gt; exact Hsum).
+  destruct (fa1_loop_current_total stakes 0 (sumN stakes) k HT ltac:(lia)) as [rq [tr [E L]]]. rewrite E.
+  pose proof (fa1_loop_spec _ _ _ _ _ _ _ E) as [Erq [Elen _]].
+  assert (Hlen : lenN rq <= k).
+  { rewrite Erq, seats_list_length. cbn [seats].
+    eapply N.le_trans; [apply floor_sum_le; exact HT|]. rewrite N.mul_comm, N.div_mul by lia. apply N.le_refl. }
+  replace (k <? lenN rq) with false by (symmetry; apply N.ltb_ge; exact Hlen).
+  cbn [f1_weights f1_required f1_kprime].
+  destruct (forallb (fun x => x =? 0) tr) eqn:Ez.
+  - rewrite Hw. eauto.
+  - assert (Hok : windex_ok tr = true).
+    { apply windex_ok_spec. split; [|split].
+      - intros C. subst tr. destruct stakes; [congruence | discriminate].
+      - apply forallb_zero_sum. exact Ez.
+      - lia. }
+    rewrite Hok. eauto.
+Qed.
+
+(* ... and TurbineSampler for one or two validators *)
+Theorem turbine_small_constructible : forall stakes fanout k order,
+  positive_set stakes -> lenN stakes <= 2 ->
+  exists sm, construct Current (StTurbine fanout k) stakes order = COk sm.
+Proof.
+  intros stakes fanout k order Hp Hn. pose proof (positive_set_windex _ Hp) as Hw.
+  cbn [construct turbine_weights]. replace (lenN stakes <=? 2) with true by (symmetry; apply N.leb_le; exact Hn).
+  rewrite Hw. eauto.
+Qed.
+
+(* ... and exactly k validators from every sampler the current code constructs: FA2's pre-allocated seats
+   sum to at most k (exact arithmetic) and its medium-node loop is clamped *)
+Lemma fa2_counts_ok_current st stakes order sm : construct Current st stakes order = COk sm -> fa2_counts_ok sm.
+Proof.
+  intros Hc. destruct st; cbn [construct] in Hc;
+    try (match type of Hc with context [if ?c then _ else _] => destruct c end; inversion Hc; exact I);
+    try (inversion Hc; exact I).
+  - destruct (turbine_weights Current stakes fanout); inversion Hc; exact I.
+  - destruct (partition_new (shuffled stakes order) bins); inversion Hc; exact I.
+  - destruct (fa1_prepare Current stakes k) as [p|]; [|discriminate].
+    destruct (partition_new (shuffled (f1_weights p) order) (f1_kprime p)); inversion Hc; exact I.
+  - destruct (fa1_prepare Current stakes k) as [p|]; [|discriminate].
+    destruct (windex_ok (f1_weights p)); inversion Hc; exact I.
+  - destruct (fa2_new Current stakes k) as [f|] eqn:Ef; inversion Hc; subst. cbn [fa2_counts_ok].
+    apply fa2_new_spec in Ef. destruct Ef as [Er [Ek [_ [_ [_ [Ecl HT]]]]]]. right. split; [exact Ecl|].
+    rewrite Er, Ek, seats_list_length. cbn [seats]. specialize (HT eq_refl).
+    eapply N.le_trans; [apply floor_sum_le; lia|]. rewrite N.mul_comm, N.div_mul by exact HT. apply N.le_refl.
+Qed.
+
+Theorem quorum_len_current : forall st stakes order sm s q r,
+  construct Current st stakes order = COk sm ->
+  sample_quorum sm s = Ok q r -> lenN q = quorum_size st.
+Proof. intros. eapply quorum_len; eauto. eapply fa2_counts_ok_current; eauto. Qed.
+
+(* 7. a committee is a function of the validator set and the random source.
+   `sample_quorum` is a function of the constructed sampler and the stream.  In the pinned tree the sampler
+   of the partition-based strategies also depended on the thread-RNG order (argument `order`); the other
+   strategies never read it. *)
 Definition order_free (st : strategy) : bool := match st with StPartition _ | StFA1Part _ => false | _ => true end.
-Theorem pure_in_validators_and_rng : forall st stakes o1 o2,
-  order_free st = true -> construct st stakes o1 = construct st stakes o2.
-Proof. intros st stakes o1 o2 H. destruct st; cbn [order_free] in H; try discriminate; reflexivity. Qed.
+Theorem pure_in_validators_and_rng_order_free : forall cv st stakes o1 o2,
+  order_free st = true -> construct cv st stakes o1 = construct cv st stakes o2.
+Proof. intros cv st stakes o1 o2 H. destruct st; cbn [order_free] in H; try discriminate; reflexivity. Qed.
+
+(* the shuffle of PartitionSampler::new now is rand's shuffle on a fixed-seed StdRng: the order, hence the
+   sampler, is a function of the validator list; `construct_current` has no other input *)
+Lemma swap_list_Forall (P : N -> Prop) l i j : Forall P l -> P 0 -> Forall P (swap_list l i j).
+Proof.
+  intros Hl H0. unfold swap_list.
+  assert (G : forall (l : list N) k x, Forall P l -> P x -> Forall P (set_nthN l k (fun _ => x))).
+  { induction l0 as [|y l0 IH]; intros [|k] x Hf Hx; cbn [set_nthN]; auto; inversion Hf; subst; constructor; auto. }
+  assert (Hn : forall k, P (nth k l 0)).
+  { intros k. destruct (Nat.lt_ge_cases k (length l)) as [A|A].
+    - rewrite Forall_forall in Hl. apply Hl. apply nth_In. exact A.
+    - rewrite nth_overflow by exact A. exact H0. }
+  apply G; [apply G; auto|]; apply Hn.
+Qed.
+Lemma swap_list_length l i j : length (swap_list l i j) = length l.
+Proof. unfold swap_list. rewrite !set_nthN_length. reflexivity. Qed.
+Lemma shuffle_go_Forall (P : N -> Prop) : P 0 -> forall todo i l st s l' r,
+  Forall P l -> shuffle_go todo i l st s = Ok l' r -> Forall P l' /\ length l' = length l.
+Proof.
+  intros H0. induction todo as [|t IH]; intros i l st s l' r Hl H; cbn [shuffle_go] in H.
+  - inversion H; subst. auto.
+  - destruct (next_index st s) as [[idx st'] s1| |]; try discriminate.
+    apply IH in H; [|apply swap_list_Forall; auto]. rewrite swap_list_length in H. exact H.
+Qed.
+Lemma fixed_order_valid n order : fixed_order n = Some order ->
+  Forall (fun id => id < n) order /\ lenN order = n.
+Proof.
+  unfold fixed_order. set (ids := map fst (indexed 0 (repeat 0 (N.to_nat n)))).
+  assert (Hids : Forall (fun id => id < n) ids).
+  { apply Forall_forall. intros x Hx. unfold ids in Hx. apply in_map_iff in Hx. destruct Hx as [[a b] [E Hin]].
+    cbn [fst] in E. subst a. apply indexed_In in Hin. unfold lenN in Hin. rewrite repeat_length in Hin. lia. }
+  assert (Hlen : length ids = N.to_nat n) by (unfold ids; rewrite map_length, indexed_length, repeat_length; reflexivity).
+  destruct (shuffle ids _) as [l r| |] eqn:E; try discriminate. intros H. inversion H; subst l.
+  unfold shuffle in E. destruct (Nat.leb (length ids) 1) eqn:El.
+  - inversion E; subst. split; [exact Hids | unfold lenN; rewrite Hlen; lia].
+  - destruct (N.eq_dec n 0) as [Z|NZ]; [subst n; cbn in El; discriminate|].
+    apply (shuffle_go_Forall (fun id => id < n)) in E; [|lia | exact Hids].
+    destruct E as [E1 E2]. split; [exact E1 | unfold lenN; rewrite E2, Hlen; lia].
+Qed.
+
+Lemma construct_current_as_construct st stakes sm :
+  construct_current st stakes = COk sm ->
+  exists order, valid_order stakes order /\ construct Current st stakes order = COk sm.
+Proof.
+  unfold construct_current. intros H.
+  destruct st; try (exists []; split; [constructor | exact H]);
+    (destruct (fixed_order (lenN stakes)) as [o|] eqn:E; [|discriminate];
+     exists o; split; [apply fixed_order_valid in E; apply E | exact H]).
+Qed.
+
+Theorem pure_in_validators_and_rng : forall st stakes sm1 sm2 s,
+  construct_current st stakes = COk sm1 -> construct_current st stakes = COk sm2 ->
+  sample_quorum sm1 s = sample_quorum sm2 s.
+Proof. intros st stakes sm1 sm2 s H1 H2. rewrite H1 in H2. inversion H2. reflexivity. Qed.
 
 (* ------------------------------------------------------------------ *)
 (* PartitionSampler::new always terminates                             *)
@@ -968,72 +1161,46 @@ Proof.
   rewrite Ea. match goal with |- context [forallb ?f ?l] => destruct (forallb f l) end; discriminate.
 Qed.
 
-Theorem construct_never_hangs : forall st stakes order, construct st stakes order <> CHang.
+Theorem construct_never_hangs : forall cv st stakes order, construct cv st stakes order <> CHang.
 Proof.
-  intros st stakes order. destruct st; cbn [construct].
+  intros cv st stakes order. destruct st; cbn [construct].
   - destruct (v <? lenN stakes); discriminate.
   - discriminate.
   - destruct (windex_ok stakes); discriminate.
-  - destruct (turbine_weights stakes fanout); discriminate.
+  - destruct (turbine_weights cv stakes fanout); discriminate.
   - destruct (windex_ok stakes); discriminate.
   - pose proof (partition_never_hangs (shuffled stakes order) bins).
     destruct (partition_new (shuffled stakes order) bins); congruence.
-  - destruct (fa1_prepare stakes k) as [p|]; [|discriminate].
+  - destruct (fa1_prepare cv stakes k) as [p|]; [|discriminate].
     pose proof (partition_never_hangs (shuffled (f1_weights p) order) (f1_kprime p)).
     destruct (partition_new (shuffled (f1_weights p) order) (f1_kprime p)); congruence.
-  - destruct (fa1_prepare stakes k) as [p|]; [|discriminate]. destruct (windex_ok (f1_weights p)); discriminate.
-  - destruct (fa2_new stakes k); discriminate.
+  - destruct (fa1_prepare cv stakes k) as [p|]; [|discriminate]. destruct (windex_ok (f1_weights p)); discriminate.
+  - destruct (fa2_new cv stakes k); discriminate.
 Qed.
 
 (* ------------------------------------------------------------------ *)
 (* what the faithful model does NOT satisfy (witnesses; replayed on the implementation by the check)    *)
 (* ------------------------------------------------------------------ *)
 Definition ones (n : nat) : list N := repeat 1 n.
-Definition ids (n : nat) : list N := map fst (indexed 0 (ones n)).
 
-(* floor(f * k) is computed in binary64: 1/49 * 49 < 1, so with 49 equal stakes and 49 seats nobody is
+(* --- the tree pinned for this work (before 904dbce / b638f0a / 3524a23) --- *)
+
+(* floor(f * k) was computed in binary64: 1/49 * 49 < 1, so with 49 equal stakes and 49 seats nobody was
    guaranteed a seat although floor(f * k) = 1 for everybody *)
-Lemma fa_floor_guarantee_refuted :
+Lemma fa_floor_guarantee_pinned_refuted :
   exists stakes k sm s q r v,
-    construct (StFA1Stake k) stakes [] = COk sm /\ sample_quorum sm s = Ok q r /\ v < lenN stakes /\
+    construct Pinned (StFA1Stake k) stakes [] = COk sm /\ sample_quorum sm s = Ok q r /\ v < lenN stakes /\
     count_occ_N q v < exact_floor (nthN stakes v 0) (sumN stakes) k.
 Proof.
   eexists (ones 49), 49, _, (xs32_words 98 1), _, _, 6.
   split; [vm_compute; reflexivity|]. split; [vm_compute; reflexivity|]. split; vm_compute; reflexivity.
 Qed.
 
-(* PartitionSampler::new panics on an empty bin: 4 validators of stake 1 in 3 bins (2 + 2 + 0) *)
-Lemma partition_constructible_refuted :
-  exists stakes bins, positive_set stakes /\ construct (StPartition bins) stakes (map fst (indexed 0 stakes)) = CPanic.
-Proof.
-  exists (ones 4), 3. split; [|vm_compute; reflexivity].
-  split; [discriminate|]. split; [repeat constructor | vm_compute; reflexivity].
-Qed.
-
-(* hence FaitAccompli1Sampler::new_with_partition_fallback (Rotor::new_fa1) panics for 5 equal validators
-   and 64 seats: 12 seats each, residual stakes 1 each, 5 units in 4 bins of 2 *)
-Lemma fa1_partition_constructible_refuted :
-  exists stakes, positive_set stakes /\ construct (StFA1Part TOTAL_SHREDS) stakes (map fst (indexed 0 stakes)) = CPanic.
-Proof.
-  exists (ones 5). split; [|vm_compute; reflexivity].
-  split; [discriminate|]. split; [repeat constructor | vm_compute; reflexivity].
-Qed.
-
-(* FaitAccompli2Sampler::new asserts sum f <= 1.0 with f = round(stake fraction * k) / k *)
-Lemma fa2_constructible_refuted :
-  exists stakes k, positive_set stakes /\ construct (StFA2 k) stakes [] = CPanic.
-Proof.
-  exists (ones 2), 1. split; [|vm_compute; reflexivity].
-  split; [discriminate|]. split; [repeat constructor | vm_compute; reflexivity].
-Qed.
-
-(* ... and when the assertion passes FA2 can return MORE than k validators: the pre-allocated seats are
-   floor(rel * k) computed on the rounded product while "medium" nodes are found by comparing rel with
-   round(rel * k) / k; with five near-equal stakes around 2^53 and k = 25 every validator gets 5 seats and
-   four of them are "medium" nodes in addition: 29 seats *)
-Lemma fa2_committee_size_refuted :
+(* FA2 could return MORE than k validators although its assertion passed: five near-equal stakes around
+   2^53, k = 25: 5 seats each by the rounded f64 product, four "medium" nodes in addition: 29 seats *)
+Lemma fa2_committee_size_pinned_refuted :
   exists stakes k sm s q r,
-    positive_set stakes /\ construct (StFA2 k) stakes [] = COk sm /\ sample_quorum sm s = Ok q r /\ k < lenN q.
+    positive_set stakes /\ construct Pinned (StFA2 k) stakes [] = COk sm /\ sample_quorum sm s = Ok q r /\ k < lenN q.
 Proof.
   eexists [9007199254740992; 9007199254740991; 9007199254740991; 9007199254740991; 9007199254740991], 25, _, (xs32_words 8 1), _, _.
   split; [split; [discriminate|]; split; [repeat constructor | vm_compute; reflexivity]|].
@@ -1041,24 +1208,24 @@ Proof.
 Qed.
 
 (* TurbineSampler::new: usize underflow for one validator, all weights zero for two *)
-Lemma turbine_constructible_refuted :
-  construct (StTurbine TURBINE_DEFAULT_FANOUT 1) [1] [] = CPanic /\
-  construct (StTurbine TURBINE_DEFAULT_FANOUT 1) [1; 1] [] = CPanic.
+Lemma turbine_constructible_pinned_refuted :
+  construct Pinned (StTurbine TURBINE_DEFAULT_FANOUT 1) [1] [] = CPanic /\
+  construct Pinned (StTurbine TURBINE_DEFAULT_FANOUT 1) [1; 1] [] = CPanic.
 Proof. split; vm_compute; reflexivity. Qed.
 
-(* FaitAccompli1Sampler: `samples * total_stake` overflows u64 for totals beyond 2^64 / k *)
-Lemma fa1_stake_constructible_refuted :
-  exists stakes, positive_set stakes /\ construct (StFA1Stake TOTAL_SHREDS) stakes [] = CPanic.
+(* FaitAccompli1Sampler: `samples * total_stake` overflowed u64 for totals beyond 2^64 / k *)
+Lemma fa1_stake_constructible_pinned_refuted :
+  exists stakes, positive_set stakes /\ construct Pinned (StFA1Stake TOTAL_SHREDS) stakes [] = CPanic.
 Proof.
   exists [4611686018427387903; 4611686018427387904]. split; [|vm_compute; reflexivity].
   split; [discriminate|]. split; [repeat constructor | vm_compute; reflexivity].
 Qed.
 
-(* the bins depend on the thread-RNG shuffle: two orders, same validator set, same random words,
+(* the bins depended on the thread-RNG shuffle: two orders, same validator set, same random words,
    different committees *)
-Lemma partition_pure_in_rng_refuted :
+Lemma partition_pure_in_rng_pinned_refuted :
   exists stakes bins o1 o2 sm1 sm2 s,
-    construct (StPartition bins) stakes o1 = COk sm1 /\ construct (StPartition bins) stakes o2 = COk sm2 /\
+    construct Pinned (StPartition bins) stakes o1 = COk sm1 /\ construct Pinned (StPartition bins) stakes o2 = COk sm2 /\
     (exists q1 q2 r1 r2, sample_quorum sm1 s = Ok q1 r1 /\ sample_quorum sm2 s = Ok q2 r2 /\ q1 <> q2).
 Proof.
   eexists (ones 4), 2, [0; 1; 2; 3], [0; 2; 1; 3], _, _, (xs32_words 4 1).
@@ -1067,13 +1234,52 @@ Proof.
   discriminate.
 Qed.
 
-(* non-vacuity: a mixed stake distribution under FA1 with the stake-weighted fallback *)
+(* --- the code as it is now --- *)
+
+(* PartitionSampler::new still panics on an empty bin: 4 validators of stake 1 in 3 bins (2 + 2 + 0) *)
+Lemma partition_constructible_refuted :
+  exists stakes bins, positive_set stakes /\ construct_current (StPartition bins) stakes = CPanic.
+Proof.
+  exists (ones 4), 3. split; [|vm_compute; reflexivity].
+  split; [discriminate|]. split; [repeat constructor | vm_compute; reflexivity].
+Qed.
+
+(* hence FaitAccompli1Sampler::new_with_partition_fallback (Rotor::new_fa1) panics for 5 equal validators
+   and 64 seats: 12 seats each, residual stakes 1 each, 5 units in 4 bins of 2 *)
+Lemma fa1_partition_constructible_refuted :
+  exists stakes, positive_set stakes /\ construct_current (StFA1Part TOTAL_SHREDS) stakes = CPanic.
+Proof.
+  exists (ones 5). split; [|vm_compute; reflexivity].
+  split; [discriminate|]. split; [repeat constructor | vm_compute; reflexivity].
+Qed.
+
+(* FaitAccompli2Sampler::new asserts sum f <= 1.0 with f = round(stake fraction * k) / k *)
+Lemma fa2_constructible_refuted :
+  exists stakes k, positive_set stakes /\ construct_current (StFA2 k) stakes = CPanic.
+Proof.
+  exists (ones 2), 1. split; [|vm_compute; reflexivity].
+  split; [discriminate|]. split; [repeat constructor | vm_compute; reflexivity].
+Qed.
+
+(* non-vacuity: 49 equal stakes, 49 seats under the current FA1: everybody holds exactly one seat; a mixed
+   distribution with the stake-weighted fallback *)
 Example sampling_nonvacuous :
-  match construct (StFA1Stake 8) [5; 1; 1; 1] [] with
-  | COk sm => match sample_quorum sm (xs32_words 16 7) with
-              | Ok q _ => (lenN q =? 8) && (5 <=? count_occ_N q 0)
-              | _ => false
-              end
-  | _ => false
-  end = true.
+  (match construct_current (StFA1Stake 49) (ones 49) with
+   | COk sm => match sample_quorum sm [] with
+               | Ok q _ => forallb (fun v => count_occ_N q v =? 1) (map fst (indexed 0 (ones 49)))
+               | _ => false
+               end
+   | _ => false
+   end
+   && match construct_current (StFA1Stake 8) [5; 1; 1; 1] with
+      | COk sm => match sample_quorum sm (xs32_words 16 7) with
+                  | Ok q _ => (lenN q =? 8) && (5 <=? count_occ_N q 0)
+                  | _ => false
+                  end
+      | _ => false
+      end
+   && match construct_current (StFA2 3) [9007199254740993; 9007199254740993; 9007199254740993] with
+      | COk sm => match sample_quorum sm (xs32_words 6 1) with Ok q _ => lenN q =? 3 | _ => false end
+      | _ => false
+      end) = true.
 Proof. vm_compute. reflexivity. Qed.
